@@ -398,7 +398,9 @@ def run(ctx):
         else:
             tdis += 1
     sample_geom = records[0]
-    st = selftest(sample_geom, records[len(reps)])
+    # the self-test patches single functions of the code under test and relies on the others being intact; when
+    # the run has already produced violations the binding is evidently live, so it is skipped (exit 1, not 2)
+    st = selftest(sample_geom, records[len(reps)]) if not ctx.violations else {"skipped": "violations were found by the main run"}
     apar = apa.finish()
 
     nontrivial = set()
